@@ -540,3 +540,179 @@ class GuardValue(FnSpec):
 
     def ensures(self, cx, a, res):
         return [("only-storable-values-pass", z3.Not(z3.Or(IS_MARK, IS_NODE, IS_SOFT, IS_EXT)), "a value passes exactly when it is neither the reserved deletion marker (the one byte string IH5 cannot store) nor a node or link object")]
+
+
+# ---- _get_child_raw / keys / _dict / _get_children --------------------------------------------------------------------------------------------------------
+class RawFiles(SVal):
+    def py_getitem(self, cx, i):
+        return RawFile(i)
+
+
+class RawFile(SVal):
+    def __init__(self, i):
+        self.i = i
+
+    def py_getitem(self, cx, p):
+        cx.effect("file-node", self.i, p)
+        return RawNodeAt(self.i, p)
+
+
+class RawNodeAt(SVal):
+    def __init__(self, i, p):
+        self.i, self.p = i, p
+
+    def py_getattr(self, cx, n):
+        if n == "attrs":
+            return RawAttrsAt(self.i, self.p)
+        raise Unsupported("raw node attribute " + n)
+
+
+class RawAttrsAt(SVal):
+    def __init__(self, i, p):
+        self.i, self.p = i, p
+
+    def py_getitem(self, cx, k):
+        cx.effect("attr-read", self.i, self.p, k)
+        return ("attribute", self.i, self.p, k)
+
+
+class GetChildRaw(FnSpec):
+    file = "ih5/overlay.py"
+    qual = "IH5InnerNode._get_child_raw"
+    props = ("C01", "C09")
+
+    def setup(self, cx):
+        n = SObj("IH5InnerNodeRead", name="self")
+        is_attrs = cx.choose(2) == 1
+        n.fields["_is_attrs"] = is_attrs
+        n.fields["_files"] = RawFiles()
+        n.fields["_gpath"] = SStr(z3.String("gpath"))
+        n.fields["_abs_path"] = lambda cx2, k: SStr(ABS(k.t))
+        a = A(self=n, key=SStr.fresh("key"), cidx=SInt(z3.Int("cidx")))
+        a.is_attrs = is_attrs
+        return a
+
+    def raises(self, cx, a):
+        return {}
+
+    def ensures(self, cx, a, res):
+        fx = [e[:-1] for e in cx.fx]
+        g = a.self.fields["_gpath"]
+        if a.is_attrs:
+            ok = len(fx) == 2 and fx[0][0] == "file-node" and fx[0][1] is a.cidx and fx[0][2] is g and fx[1][0] == "attr-read" and fx[1][3] is a.key and isinstance(res, tuple) and res[0] == "attribute"
+            return [("attribute-of-this-node-in-that-container", z3.BoolVal(bool(ok)), "for an attribute set: the attribute `key` of the node at this path in exactly the given container")]
+        ok = len(fx) == 1 and fx[0][0] == "file-node" and fx[0][1] is a.cidx and isinstance(fx[0][2], SStr) and isinstance(res, RawNodeAt)
+        return [("node-at-the-absolute-path-in-that-container", z3.BoolVal(False) if not ok else fx[0][2].t == ABS(a.key.t), "for a group: the raw node at the key's absolute path in exactly the given container")]
+
+
+class ChildrenTok(SVal):
+    """self._children(): the kernel's answer (C01 kernel contract), an ordered dict name -> container index"""
+
+    def meth_keys(self, cx):
+        return ("keys-of", self)
+
+    def meth_items(self, cx):
+        return ChildItems(self)
+
+
+class ChildItems(SVal):
+    def __init__(self, c):
+        self.c = c
+
+
+class Keys(FnSpec):
+    file = "ih5/overlay.py"
+    qual = "IH5InnerNode.keys"
+    props = ("C01", "C09")
+
+    def setup(self, cx):
+        n = SObj("IH5InnerNodeRead", name="self")
+        self.tok = ChildrenTok()
+        n.fields["_children"] = lambda cx2: (cx2.effect("kernel"), self.tok)[1]
+        return A(self=n)
+
+    def raises(self, cx, a):
+        return {}
+
+    def ensures(self, cx, a, res):
+        return [("the-kernel-s-names", z3.BoolVal(res == ("keys-of", self.tok) and len(cx.fx) == 1), "what a group or attribute set lists is exactly what the child-resolution kernel lists (deleted entries and the substitution marker already left out there)")]
+
+
+CHILD_OF = z3.Function("overlay_child_for", S, I, z3.DeclareSort("ChildValue"))
+
+
+def items_schema(interp, cx, fr, e):
+    """{k: self._get_child(k, idx) for k, idx in self._children().items()} / the list variant of _get_children:
+    read in element mode — the element expression is evaluated for a generic (k, idx) of the kernel's answer."""
+    import ast
+
+    from pyvc.engine import Env, Frame
+
+    if len(e.generators) != 1 or e.generators[0].ifs:
+        return NotImplemented
+    g = e.generators[0]
+    src = interp.eval(cx, fr, g.iter)
+    if not isinstance(src, ChildItems) or not (isinstance(g.target, ast.Tuple) and len(g.target.elts) == 2 and all(isinstance(x, ast.Name) for x in g.target.elts)):
+        return NotImplemented
+    k, idx = SStr(z3.String("generic_child_name")), SInt(z3.Int("generic_child_index"))
+    sub = Frame(fr.modinfo, fr.qual, Env(fr.env), spec=fr.spec, cls=fr.cls)
+    sub.env.set(g.target.elts[0].id, k)
+    sub.env.set(g.target.elts[1].id, idx)
+    if isinstance(e, ast.DictComp):
+        key = interp.eval(cx, sub, e.key)
+        val = interp.eval(cx, sub, e.value)
+        return ("dict-over-children", src.c, key is k, val)
+    val = interp.eval(cx, sub, e.elt)
+    return ("list-over-children", src.c, val)
+
+
+class DictOf(FnSpec):
+    file = "ih5/overlay.py"
+    qual = "IH5InnerNode._dict"
+    props = ("C01", "C09")
+
+    def init(self):
+        self.comps[0] = items_schema
+
+    def setup(self, cx):
+        n = SObj("IH5InnerNodeRead", name="self")
+        self.tok = ChildrenTok()
+        n.fields["_children"] = lambda cx2: self.tok
+        n.fields["_get_child"] = lambda cx2, k, i: ("child", k, i)
+        return A(self=n)
+
+    def raises(self, cx, a):
+        return {}
+
+    def ensures(self, cx, a, res):
+        ok = isinstance(res, tuple) and res[0] == "dict-over-children" and res[1] is self.tok and res[2] is True and isinstance(res[3], tuple) and res[3][0] == "child" and isinstance(res[3][1], SStr) and isinstance(res[3][2], SInt)
+        return [("each-listed-name-with-its-child-at-the-kernel-s-index", z3.BoolVal(False) if not ok else z3.And(res[3][1].t == z3.String("generic_child_name"), res[3][2].t == z3.Int("generic_child_index")), "values()/items() pair every listed name with _get_child(name, <the container index the kernel gives for it>) — the same lookup node[name] makes")]
+
+
+class GetChildren(FnSpec):
+    file = "ih5/overlay.py"
+    qual = "IH5InnerNode._get_children"
+    props = ("C01", "C09")
+
+    def init(self):
+        self.comps[0] = items_schema
+
+    def setup(self, cx):
+        n = SObj("IH5InnerNodeRead", name="self")
+        self.tok = ChildrenTok()
+        n.fields["_children"] = lambda cx2: self.tok
+        n.fields["_get_child"] = lambda cx2, k, i: ("child", k, i)
+        n.fields["_abs_path"] = lambda cx2, k: SStr(ABS(k.t))
+        return A(self=n)
+
+    def raises(self, cx, a):
+        return {}
+
+    def ensures(self, cx, a, res):
+        ok = isinstance(res, tuple) and res[0] == "list-over-children" and res[1] is self.tok and isinstance(res[2], tuple) and res[2][0] == "child" and isinstance(res[2][1], SStr) and isinstance(res[2][2], SInt)
+        return [("each-listed-child-at-the-kernel-s-index", z3.BoolVal(False) if not ok else z3.And(res[2][1].t == ABS(z3.String("generic_child_name")), res[2][2].t == z3.Int("generic_child_index")), "")]
+
+
+def add_ovlread2(reg):
+    reg.set_class_home("IH5InnerNodeRead", "ih5/overlay.py", "IH5InnerNode")
+    return [GetChildRaw(), Keys(), DictOf(), GetChildren()]  # bodies verified on their own
